@@ -182,6 +182,11 @@ impl RecomputeHeap {
             );
         }
         let mut q = queue.borrow_mut();
+        // verification builds: a simulator-installed chooser may pick any entry of this bucket
+        #[cfg(cormacrelf_incremental_rs_verif)]
+        if let Some(chosen) = crate::verif::choose(q.len()) {
+            q.swap(0, chosen);
+        }
         let node = q.pop_front()?;
         node.height_in_recompute_heap().set(-1);
         self.length.decrement();
